@@ -1241,6 +1241,8 @@ def parse_deftype(toks):
 
     letters = set()
     for start, end in ranges:
+        start = start.lower()
+        end = end.lower() if end else end
         if end:
             letters.update(
                 chr(c) for c in range(ord(start), ord(end) + 1))
